@@ -52,6 +52,16 @@ def corpus():
         {'snap_c': [], 'snap_s': [], 'pre': [],
          'ops': [['strm', '1 NEW 0 example.com:80 SOURCE_ADDR=127.0.0.1:5000 PURPOSE=USER', [], None], ['cs', 0], ['cs', 0], ['ack', True],
                  ['strm', '1 CLOSED 0 example.com:80 REASON=DONE', [], None]]},
+        # a close request outlives a DETACHED (the stream is alive and re-attached), in both ack orders; a later request is shared
+        {'snap_c': ['5 BUILT %s PURPOSE=GENERAL' % r1, '6 BUILT %s PURPOSE=GENERAL' % r2], 'snap_s': ['1 SUCCEEDED 5 example.com:80'], 'pre': [],
+         'ops': [['cs', 0], ['strm', '1 DETACHED 5 example.com:80 REASON=TIMEOUT', [], None], ['cs', 0], ['ack', True],
+                 ['strm', '1 SENTCONNECT 6 example.com:80', [], None], ['strm', '1 CLOSED 6 example.com:80 REASON=DONE', [], None]]},
+        {'snap_c': ['5 BUILT %s PURPOSE=GENERAL' % r1], 'snap_s': ['1 SUCCEEDED 5 example.com:80'], 'pre': [],
+         'ops': [['cs', 0], ['ack', True], ['strm', '1 DETACHED 5 example.com:80 REASON=TIMEOUT', [], None], ['cs', 0],
+                 ['strm', '1 CLOSED 0 example.com:80 REASON=DONE', [], None]]},
+        # a wait requested after a circuit was BUILT and later CLOSED succeeds like the earlier ones
+        {'snap_c': [], 'snap_s': [], 'pre': [],
+         'ops': [ev('5 LAUNCHED PURPOSE=GENERAL'), ['wb', 0], ev('5 BUILT %s PURPOSE=GENERAL' % r1), ev('5 CLOSED %s PURPOSE=GENERAL REASON=FINISHED' % r1), ['wb', 0], ['wc', 0]]},
         # when_built before BUILT, after BUILT, after EXTENDED-again, and on a circuit that fails first
         {'snap_c': [], 'snap_s': [], 'pre': [],
          'ops': [ev('5 LAUNCHED PURPOSE=GENERAL'), ['wb', 0], ev('5 BUILT %s PURPOSE=GENERAL' % r1), ['wb', 0], ev('5 EXTENDED %s,%s PURPOSE=GENERAL' % (r1, r2)), ['wb', 0],
